@@ -4,8 +4,10 @@ import (
 	"encoding/json"
 	"fmt"
 	"strings"
+	"sync"
 	"time"
 
+	"github.com/beevik/etree"
 	saml2 "github.com/russellhaering/gosaml2"
 	"github.com/russellhaering/gosaml2/types"
 
@@ -31,6 +33,23 @@ var c20Shapes = []string{
 	"default-ns-root", "root-prefix-redeclared-on-issuer",
 	"remove-InResponseTo", "remove-Destination", "empty-Destination", "empty-issuer",
 	"move-issuer-to-end", "second-issuer-at-end", "move-status-before-issuer",
+	// an EncryptedAssertion (anyone can encrypt to the SP) whose plaintext is not an assertion
+	// but another Issuer: whatever decryption splices into the tree must not reach the result
+	"encrypted-issuer-before-issuer", "encrypted-issuer-after-issuer", "encrypted-issuer-at-end",
+}
+
+var c20EncIssuerOnce sync.Once
+var c20EncIssuerXML string
+
+// c20EncIssuer is an EncryptedAssertion, encrypted to the SP's key, holding an Issuer element.
+func c20EncIssuer() string {
+	c20EncIssuerOnce.Do(func() {
+		pt := []byte(`<saml:Issuer xmlns:saml="urn:oasis:names:tc:SAML:2.0:assertion">https://evil-idp.example.com/metadata</saml:Issuer>`)
+		d := etree.NewDocument()
+		d.SetRoot(idp.EncryptPlaintext(pt, idp.EncSpec{}))
+		c20EncIssuerXML, _ = d.WriteToString()
+	})
+	return c20EncIssuerXML
 }
 
 type c20Case struct {
@@ -155,6 +174,18 @@ func c20Apply(shape string, s string) string {
 		return s[:k] + s[e:]
 	case "empty-issuer":
 		return issuerText(func(string) string { return "" })
+	case "encrypted-issuer-before-issuer", "encrypted-issuer-after-issuer", "encrypted-issuer-at-end":
+		if issStart < 0 {
+			return s
+		}
+		switch shape {
+		case "encrypted-issuer-before-issuer":
+			return s[:issStart] + c20EncIssuer() + s[issStart:]
+		case "encrypted-issuer-after-issuer":
+			return s[:issEnd] + c20EncIssuer() + s[issEnd:]
+		}
+		end := strings.LastIndex(s, "</")
+		return s[:end] + c20EncIssuer() + s[end:]
 	case "move-issuer-to-end", "second-issuer-at-end":
 		if issStart < 0 {
 			return s
@@ -315,7 +346,7 @@ func c20Replay(raw json.RawMessage) ([]string, string) {
 }
 
 func c20Run(r *mc.Run) {
-	r.Rule = "every document of C08's layout space (same generator and bounds) + attacker-shaped documents with an unsigned root: every combination of <=2 (quick) / <=3 (thorough) of 38 shadowing/layout shapes (namespace-prefixed and duplicated root attributes before/after the real one, two Issuers in either order, foreign-namespace / nested Issuer first, comments/CDATA/character references/whitespace/child element in Issuer, character references and raw TAB/LF/CR in an attribute value, prolog variants, quote style, attribute order, BOM, default namespace, prefix rebinding) x raw/DEFLATE x IdP issuer configured or not, for SSO Responses and signed/unsigned LogoutResponses; differential oracle; non-trivial = full validation accepted, so the two decoders were compared; distinct = distinct case"
+	r.Rule = "every document of C08's layout space (same generator and bounds) + attacker-shaped documents with an unsigned root: every combination of <=2 (quick) / <=3 (thorough) of 38 shadowing/layout shapes (namespace-prefixed and duplicated root attributes before/after the real one, two Issuers in either order, foreign-namespace / nested Issuer first, comments/CDATA/character references/whitespace/child element in Issuer, character references and raw TAB/LF/CR in an attribute value, prolog variants, quote style, attribute order, BOM, default namespace, prefix rebinding, an EncryptedAssertion whose plaintext is another Issuer before/after the Issuer or at the end) x raw/DEFLATE x IdP issuer configured or not, for SSO Responses and signed/unsigned LogoutResponses; differential oracle; non-trivial = full validation accepted, so the two decoders were compared; distinct = distinct case"
 	var cases []c20Case
 	for _, g := range c08Cases(r) {
 		g := g
